@@ -1,11 +1,14 @@
 pub mod c01;
+pub mod c02;
 pub mod c03;
 pub mod c05;
 pub mod c06;
 pub mod c07;
 pub mod c08;
 pub mod c10;
+pub mod c11;
 pub mod c12;
+pub mod c13;
 pub mod c15;
 pub mod c16;
 
@@ -18,7 +21,7 @@ pub struct CheckDef {
 }
 
 pub fn all() -> Vec<CheckDef> {
-    vec![c01::def(), c03::def(), c05::def(), c06::def(), c07::def(), c08::def(), c10::def(), c12::def(), c15::def(), c16::def()]
+    vec![c01::def(), c02::def(), c03::def(), c05::def(), c06::def(), c07::def(), c08::def(), c10::def(), c11::def(), c12::def(), c15::def(), c16::def()]
 }
 
 pub fn find(id: &str) -> Option<CheckDef> {
@@ -29,8 +32,10 @@ pub fn find(id: &str) -> Option<CheckDef> {
 pub fn replay_other(kind: &str, fr: &crate::runner::FailRec, dir: &std::path::Path) -> Option<crate::interp::Failure> {
     match kind {
         "c08" => c08::replay(fr, dir),
+        "c02" => c02::replay(fr, dir),
         "c03" => c03::replay(fr, dir),
         "c10" => c10::replay(fr, dir),
+        "c11" => c11::replay(fr, dir),
         "c12" => c12::replay(fr, dir),
         "c15" => c15::replay(fr, dir),
         "c16" => c16::replay(fr, dir),
